@@ -4,7 +4,7 @@ from __future__ import annotations
 from typing import Any, Dict, List
 
 from ..sim.gen import profile
-from .simprop import SimEngine, sweep_space
+from .simprop import DRAIN, SimEngine, overlap_family, sweep_space
 
 FIN = [1, 1, 2, 2, 3, 4, 0, None]
 
@@ -22,6 +22,11 @@ BURST = profile(classes=["TaskPool", "SimpleTaskPool"], kinds=["apply", "map"], 
                 ops={"spawn": 3, "tick": 4, "cancel_group": 2, "cancel_all": 1, "flush": 1, "settle": 2, "cancel": 1})
 
 
+def _ov(tails, thin):
+    cases = overlap_family(tails, thin=thin)
+    return cases, len(cases)
+
+
 def _c01() -> SimEngine:
     prof = profile(sizes=FIN, p_cb_raise=0.12, p_worker_raise=0.1, p_callfault=0.1, p_bad_return=0.06,
                    ops={"set_size": 0, "cancel": 2, "cancel_group": 1.2, "flush": 1.5, "close": 0.3, "spawn": 9, "abandon": 0.6})
@@ -36,7 +41,10 @@ def _c01() -> SimEngine:
                 cases += c
         if tier == "quick":
             cases = cases[::6]
-        return ("base scenario x (cancel / cancel_group) x flush at every tick 0..5 x the flush caller abandoned 1-2 ticks later", cases, len(cases))
+        more = {"op": "spawn", "pool": 0, "kind": "apply", "num": 2, "worker": {"script": [["wait"]], "fname": "x"}, "place": "inline"}
+        cases = cases + overlap_family([DRAIN, [more, {"op": "settle"}] + DRAIN], thin=4 if tier == "quick" else 1)
+        return ("base scenario x (cancel / cancel_group) x flush at every tick 0..5 x the flush caller abandoned 1-2 ticks later; plus the "
+                "overlap family (cancel, flush, cancel, callbacks let go in every order, optionally a further request)", cases, len(cases))
 
     return SimEngine(
         "C01",
@@ -61,7 +69,9 @@ def _c02() -> SimEngine:
                  {"op": "flush", "pool": 0}]
         cases, n = sweep_space(perts, tail=[{"op": "tick", "k": 1}, {"op": "flush", "pool": 0, "re": True}], max_tick=6,
                                thin=6 if tier == "quick" else 1)
-        return ("base scenario (size x request kind x callbacks x worker script) x perturbation x every tick 0..6 x placement", cases, n)
+        cases = cases + overlap_family([DRAIN + [{"op": "flush", "pool": 0, "re": True}]], thin=2 if tier == "quick" else 1)
+        return ("base scenario (size x request kind x callbacks x worker script) x perturbation x every tick 0..6 x placement; "
+                "plus the overlap family (cancel, flush, cancel, callbacks let go in every order)", cases, len(cases))
 
     return SimEngine(
         "C02",
@@ -85,7 +95,9 @@ def _c03() -> SimEngine:
         "an end callback, at least one of them async. Distinct = program hash.",
         [("default", prof, 0.85), ("two-pools", dict(prof, max_pools=2), 0.15)],
         lambda case, l: bool(l & {"cb:c:async", "cb:c:sync"}) and bool(l & {"cb:e:async", "cb:e:sync"}) and bool(l & {"cb:c:async", "cb:e:async"}),
-        n_quick=4000, n_thorough=200000, floors={"cb:c:async": 0.1, "cb:e:async": 0.2})
+        n_quick=4000, n_thorough=200000, floors={"cb:c:async": 0.1, "cb:e:async": 0.2},
+        sweep=lambda tier: ("overlap family: two tasks cancelled one after the other (slow cancel callbacks), a flush in between, callbacks let go "
+                            "in every order, then everything drained", *_ov([DRAIN], 2 if tier == "quick" else 1)))
 
 
 def _c04() -> SimEngine:
@@ -119,7 +131,9 @@ def _c05() -> SimEngine:
         "Distinct = program hash.",
         [("default", prof, 0.9), ("two-pools", dict(prof, max_pools=2), 0.1)],
         lambda case, l: "map:at-num_concurrent" in l and ("map:finished-out-of-start-order" in l or has(case, lambda s: s["op"] == "spawn" and s.get("worker", {}).get("callfault"))),
-        n_quick=4000, n_thorough=200000, floors={"map:at-num_concurrent": 0.3, "map:finished-out-of-start-order": 0.05})
+        n_quick=4000, n_thorough=200000, floors={"map:at-num_concurrent": 0.3, "map:finished-out-of-start-order": 0.05},
+        sweep=lambda tier: ("overlap family: two members of a map cancelled one after the other (slow cancel callbacks), a flush in between, callbacks "
+                            "let go in every order, then everything drained", *_ov([DRAIN], 2 if tier == "quick" else 1)))
 
 
 def _c06() -> SimEngine:
@@ -134,7 +148,10 @@ def _c06() -> SimEngine:
             perts.append({"op": "cancel", "pool": 0, "refs": refs})
         cases, n = sweep_space(perts, max_tick=7, second={"op": "cancel", "pool": 0, "refs": [["run", 1]], "place": "inline"},
                                thin=10 if tier == "quick" else 1)
-        return ("base scenario x (optional earlier cancel) x id tuples over every task state x every tick 0..7 x placement", cases, n)
+        tails = [[{"op": "cancel", "pool": 0, "refs": r, "place": "inline"}] + DRAIN for r in ([["incb", 0]], [["any", 0], ["any", 1]], [["any", 1], ["run", 0]])]
+        cases = cases + overlap_family(tails, thin=6 if tier == "quick" else 1)
+        return ("base scenario x (optional earlier cancel) x id tuples over every task state x every tick 0..7 x placement; plus the "
+                "overlap family (cancel, flush, cancel, callbacks let go in every order) x cancel of in-callback / any ids", cases, len(cases))
 
     return SimEngine(
         "C06",
@@ -257,7 +274,9 @@ def _c13() -> SimEngine:
                 cases += c
         if tier == "quick":
             cases = cases[::8]
-        return ("base scenario x [earlier flush] x flush at every tick 0..6 x (cancel / finish) afterwards", cases, len(cases))
+        cases = cases + overlap_family([DRAIN, [{"op": "flush", "pool": 0, "place": "eager"}] + DRAIN], thin=4 if tier == "quick" else 1)
+        return ("base scenario x [earlier flush] x flush at every tick 0..6 x (cancel / finish) afterwards; plus the overlap family "
+                "(cancel, flush, cancel, callbacks let go in every order)", cases, len(cases))
 
     return SimEngine(
         "C13",
